@@ -9,5 +9,6 @@ cd "$OD"
 rm -f model.* d_*.* driver*
 coqc -Q "$ROOT/coq/theories" TV "$ROOT/coq/theories/Extract/Extract.v"
 cp "$SRC"/*.ml .
-AREAS=$(ls d_*.ml | grep -v d_base.ml | sort)
-ocamlfind ocamlopt -O3 -w -a model.mli model.ml d_base.ml $AREAS driver.ml -o driver
+AREAS=$(ls d_*.ml | grep -v -e d_base.ml -e d_c13.ml -e d_strat.ml | sort)
+AREAS="d_c13.ml d_strat.ml $AREAS"
+ocamlfind ocamlopt -package str -linkpkg -O3 -w -a model.mli model.ml d_base.ml $AREAS driver.ml -o driver
